@@ -22,7 +22,7 @@ func init() {
 		Name:    "SIBLINGOPTS",
 		Doc:     "the bulk getters of one family read the same option: every Fields / Indexes / Gets method of thrift/generic.Node and proto/generic.Node (siblings that fill a caller-supplied []PathNode) loads Options.ClearDirtyValues — a sibling that stops honouring it leaves stale nodes from the previous query in slots whose element is now absent",
 		Configs: "NP",
-		Floor:   map[string]int{"N": 6, "P": 6},
+		Floor:   map[string]int{"N": 5, "P": 5},
 		Run:     runSiblingOpts,
 	})
 }
